@@ -23,6 +23,10 @@ import (
 //	[.., +nDelay)         delay-seq       DelayOnError alone over failure/success sequences, closed form
 //	[.., +nThrottle)      throttle        Throttle alone: start times vs. the configured rate, backlog from creation on
 //	[.., +nArrivals)      throttle-arrivals  Throttle alone: backlogs arriving after idle / under-used phases
+//	[.., +nCtxSingle)     ctx-replace/<kind>  one middleware alone / with Retry / with a user middleware; the handler and the
+//	                                       user middleware replace the message context during the call (ctxrepl.go)
+//	[.., +nCtxEnum)       ctx-replace/chain/k[+retry]  the 1928 enumerated chains again, with context replacement and 0..2 user middlewares
+//	[.., +nCtxRandom)     ctx-replace/random  chains with repetition (nested Timeouts), up to two Retry layers, 0..2 user middlewares
 const (
 	chainsPerCase  = 8
 	singleKinds    = 8
@@ -31,8 +35,13 @@ const (
 
 type layout struct {
 	nSingle, nEnum, nRandom, nDelay, nThrottle, nArrivals int
-	singlePerKind                              int
-	scriptsPerChain                            int
+	singlePerKind                                         int
+	scriptsPerChain                                       int
+
+	nCtxSingle, nCtxEnum, nCtxRandom int
+	ctxPerKind                       int // cases per kind in ctx-replace/<kind>
+	ctxScriptsSingle                 int // scripts per shape in ctx-replace/<kind>
+	ctxScriptsChain                  int // scripts (each with its own user-middleware placement) per enumerated chain
 }
 
 func layoutFor(tier string) layout {
@@ -44,12 +53,21 @@ func layoutFor(tier string) layout {
 		nThrottle:       vlib.TierN(tier, 48, 320),
 		nArrivals:       vlib.TierN(tier, 96, 960),
 		scriptsPerChain: vlib.TierN(tier, 8, 240),
+
+		nCtxEnum:         len(enumChains) / chainsPerCase,
+		nCtxRandom:       vlib.TierN(tier, 96, 8000),
+		ctxPerKind:       vlib.TierN(tier, 3, 30),
+		ctxScriptsSingle: vlib.TierN(tier, 10, 30),
+		ctxScriptsChain:  vlib.TierN(tier, 6, 120),
 	}
 	l.nSingle = singleKinds * l.singlePerKind
+	l.nCtxSingle = singleKinds * l.ctxPerKind
 	return l
 }
 
-func (l layout) total() int { return l.nSingle + l.nEnum + l.nRandom + l.nDelay + l.nThrottle + l.nArrivals }
+func (l layout) total() int {
+	return l.nSingle + l.nEnum + l.nRandom + l.nDelay + l.nThrottle + l.nArrivals + l.nCtxSingle + l.nCtxEnum + l.nCtxRandom
+}
 
 func init() {
 	if len(enumChains)%chainsPerCase != 0 {
@@ -67,10 +85,20 @@ func init() {
 			"random: chains of 1..3 simple middlewares with repetition plus 0..2 Retry layers. " +
 			"delay-seq: DelayOnError alone, real-valued Multiplier in [1,3], failure/success sequences over redelivered messages, closed form min(Initial*Mult^(k-1),Max) within 1 ppm. " +
 			"throttle: periods 10..20 ms, 8..16 starts from 1..3 goroutines sharing one Throttle, backlog from creation on (30%: one pause of 3 periods); " +
-				"throttle-arrivals: periods 2..8 ms, count 1..100, 1..3 arrival groups one after another, each a backlog of 6..14 messages arriving at once on 1, 2..4 or one-per-message goroutines sharing the Throttle, " +
-				"preceded by nothing (backlog from creation), an idle phase of 3..14 periods, or a trickle of 3..6 single messages 2..3 periods apart (traffic below the rate). " +
-				"Both throttle classes record per call the bracket [invoked, handler started] and judge: start i (1-based) must not precede creation+i*period (throttle-rate); " +
-				"M >= 5 starts that provably all happened inside one window need more than (M-4) periods (throttle-burst: a time.Ticker saves at most one tick, (M-3) periods is attained by correct code with a late tick, one period of tolerance). " +
+			"throttle-arrivals: periods 2..8 ms, count 1..100, 1..3 arrival groups one after another, each a backlog of 6..14 messages arriving at once on 1, 2..4 or one-per-message goroutines sharing the Throttle, " +
+			"preceded by nothing (backlog from creation), an idle phase of 3..14 periods, or a trickle of 3..6 single messages 2..3 periods apart (traffic below the rate). " +
+			"Both throttle classes record per call the bracket [invoked, handler started] and judge: start i (1-based) must not precede creation+i*period (throttle-rate); " +
+			"M >= 5 starts that provably all happened inside one window need more than (M-4) periods (throttle-burst: a time.Ticker saves at most one tick, (M-3) periods is attained by correct code with a late tick, one period of tolerance). " +
+			"ctx-replace classes: the same chain oracle, but code inside the middlewares replaces the message context during the call with msg.SetContext: each handler call (88%) and each UserMW layer " +
+			"(a harness-written middleware, as the CQRS processors do; 35% put the context they saw back afterwards in a defer) installs a context derived from the current one with a value, with its own cancel func, with its own far deadline (3 h), " +
+			"an unrelated context (Background-rooted, with/without a 3 h deadline), the same context again, or (handler) a derived one that it sets back before returning; also right before a panic. " +
+			"ctx-replace/<kind>: each simple middleware k as [k], [Retry>k], [k>Retry], [UserMW>k], [k>UserMW], [Retry>k>UserMW], [Retry>UserMW>k], [UserMW>Retry>k], 10 (quick) / 30 (thorough) scripts each; " +
+			"ctx-replace/chain/k[+retry]: the 1928 enumerated chains again, 6 (quick) / 120 (thorough) scripts each, every script with its own placement of 0..2 UserMW layers; " +
+			"ctx-replace/random: chains with repetition (40% Timeout per slot, so nested Timeouts), 0..2 Retry layers, 0..2 UserMW layers. " +
+			"The model tracks the lineage of the message context symbolically (caller's context, Timeout layers, installed contexts) and judges: after the chain msg.Context().Err()==nil and Retry's attempt count as without the middlewares (timeout-ctx-after / ctx-after / retry-attempts), " +
+			"no Timeout deadline left on the message, values of the caller's and of the installed contexts still visible during later calls and afterwards (ctx-transparency), a Timeout deadline visible in a handler call iff a Timeout layer lies between the last unrelated replacement and the handler. " +
+			"When inner code leaves an UNRELATED context of its own on the message under a Timeout, the statement does not say whether Timeout may put the caller's context back; from then on only 'not cancelled', 'no Timeout deadline left' and the attempt count are judged (counter ctx_unrelated_left_under_timeout). " +
+			"A ctx-replace case is non-trivial when a documented effect was exercised and at least one replacement was made. " +
 			"A case is non-trivial when at least one documented effect was exercised (id copied, panic recovered, error ignored, ack-at-start seen, deadline seen, delay applied, retry made, rate wait seen); " +
 			"distinct = distinct (chains, parameters, script shapes, observed results) hashes.",
 		Assumptions: []string{
@@ -79,6 +107,8 @@ func init() {
 			"Timeouts that may expire (2..6 ms, handler waits for the deadline) are only generated when no Timeout is outside a Retry; all other Timeouts are >= 1 min",
 			"the circuit breaker stays closed (default settings up to 5 handler calls, otherwise ReadyToTrip=never); a state change makes the case inconclusive",
 			"Throttle: only lower bounds on start times are judged (no upper bounds on durations); the reference for 'configured rate' is the time.Ticker the middleware documents itself with (one start per duration/count, at most one tick saved while idle); a clock-read-to-channel-send gap inside one runtime timer firing of more than one period, twice within one window, is assumed not to happen",
+			"ctx-replace: every context the handler / UserMW installs stays live while the chain runs (own cancel funcs are invoked only after the verdict; own deadlines are 3 h away), so a done message context after the call is the middleware's doing; " +
+				"handlers that cancel their own context and leave it on the message are not generated; handlers in these classes never wait for the Timeout deadline (all Timeouts >= 1 min)",
 			"outputs are compared by pointer identity and order, errors by identity (==); nil vs. empty output slices are not distinguished",
 		},
 		Run: run,
@@ -107,5 +137,17 @@ func run(e *vlib.Env) vlib.Result {
 	if i < l.nThrottle {
 		return runThrottle(e)
 	}
-	return runThrottleArrivals(e)
+	i -= l.nThrottle
+	if i < l.nArrivals {
+		return runThrottleArrivals(e)
+	}
+	i -= l.nArrivals
+	if i < l.nCtxSingle {
+		return runCtxSingle(e, kind(i/l.ctxPerKind), l.ctxScriptsSingle)
+	}
+	i -= l.nCtxSingle
+	if i < l.nCtxEnum {
+		return runCtxEnum(e, i, l.ctxScriptsChain)
+	}
+	return runCtxRandom(e)
 }
